@@ -121,6 +121,7 @@ def run_cases(module: str, cases: list[dict], *, workers: int, case_timeout: flo
     t0 = time.monotonic()
 
     hung = [0]
+    retried = [0]
 
     def loop(idx: int) -> None:
         worker = Worker(module, idx, logdir, env_extra)
@@ -137,6 +138,16 @@ def run_cases(module: str, cases: list[dict], *, workers: int, case_timeout: flo
                         done_count[0] += 1
                     continue
                 record = run_one(worker, case)
+                if record.get("timeout") and record.get("diag", {}).get("verdict") != "quiescent" \
+                        and case.get("_retries", 0) < 2:
+                    # the watchdog fired on a *busy* process: undecidable, not a verdict.  Re-run the case in a
+                    # fresh worker with a doubled budget before the run may be called inconclusive.
+                    case["_retries"] = case.get("_retries", 0) + 1
+                    case["timeout"] = 2 * float(case.get("timeout", case_timeout))
+                    with lock:
+                        retried[0] += 1
+                    todo.put((i, case))
+                    continue
                 if record.get("timeout"):
                     with lock:
                         hung[0] += 1
@@ -209,5 +220,7 @@ def run_cases(module: str, cases: list[dict], *, workers: int, case_timeout: flo
     for thread in threads:
         thread.join()
     common.rm(logdir)
+    if retried[0] and progress:
+        print(f"  [{module}] {retried[0]} case(s) re-run after an undecidable watchdog firing", flush=True)
     return [r if r is not None else {"case": cases[i], "died": "never ran"}
             for i, r in enumerate(results)]
